@@ -359,6 +359,10 @@ Definition seed_clear_v0 (fs : list Z) : sfun := fun s t => (clear_fields s t fs
 Definition seed_clear (n : nat) (fs : list Z) : sfun := fun s t =>
   let '(s1, c) := clone n Lib s t in (clear_fields s1 c fs, c).
 
+(* ---- model-level reads: a trait model builds what it returns from the stored messages (given in id
+   order, as Collection.List without a read mask hands them out: the stored messages themselves) ---- *)
+Definition rfun := hst -> list tag -> hst * list tag.
+
 (* ---- the resource layer ---- *)
 Inductive wmode := MSet | MUpdate (create : bool) | MAdd.
 
@@ -368,7 +372,8 @@ Inductive op :=
 | OGet (id : Z) (rm : option (list Z))
 | OList (rm : option (list Z))
 | OPull (rm : option (list Z)) (updates_only : bool) (hook : sfun)
-| OMutArg (k : nat).
+| OMutArg (k : nat)
+| ORead (rf : rfun).
 
 Record state := mkS {
   hs : hst;
@@ -476,6 +481,9 @@ Definition step (n : nat) (st : state) (o : op) : state :=
       | Some a => mkS (scramble n (hs st) a) (store st) (snaps st) (subsc st) (collection st)
       | None => st
       end
+  | ORead rf =>
+      let '(s1, rs) := rf (hs st) (map snd (store st)) in
+      mkS s1 (store st) (snaps st ++ rs) (subsc st) (collection st)
   end.
 
 Fixpoint run (n : nat) (st : state) (ops : list op) : state :=
